@@ -454,7 +454,7 @@ pub fn run_e1(ctx: &Ctx, prop: P) -> i32 {
         let fam = F8;
         let plans: Vec<AsyncPlan> = [None, Some(Hint::All)]
             .into_iter()
-            .map(|hint| AsyncPlan { mask: K_CANDS | K_DEPS, pairs: false, hint, complete_cap: if q { 60 } else { 3000 }, dev_bound: if q { 1 } else { 2 }, dev_cap: if q { 60 } else { 3000 } })
+            .map(|hint| AsyncPlan { hint_mask: None, mask: K_CANDS | K_DEPS, pairs: false, hint, complete_cap: if q { 60 } else { 3000 }, dev_bound: if q { 1 } else { 2 }, dev_cap: if q { 60 } else { 3000 } })
             .collect();
         let opts = SweepOpts {
             threads: threads(),
@@ -477,12 +477,44 @@ pub fn run_e1(ctx: &Ctx, prop: P) -> i32 {
         total_transitions += acc.evaluations;
         eprintln!("[C08] F8 under completion orders: {} cases, {} schedules, {:.1}s", acc.get("cases"), acc.get("schedules"), ctx.t0.elapsed().as_secs_f64());
         rep.push("F8 x completion orders (controlled executor; hints as-is and All)", acc, !q, fam.len());
+        // F8b: every subset of packages hinted, complete schedule trees
+        let famb = F8b;
+        let plans_b: Vec<AsyncPlan> = (0u64..32)
+            .filter(|m| q == false || [0u64, 31, 24, 4, 28, 8, 16].contains(m))
+            .map(|m| AsyncPlan { hint_mask: Some(m), mask: K_CANDS | K_DEPS, pairs: false, hint: None, complete_cap: if q { 400 } else { 20000 }, dev_bound: 2, dev_cap: if q { 400 } else { 20000 } })
+            .collect();
+        let opts = SweepOpts {
+            threads: threads(),
+            wall_limit_s: 120,
+            on_stuck: Box::new(|f, idx| {
+                eprintln!("NOTE: C08 async exploration stuck at {f}/{idx}");
+                None
+            }),
+            fam_no: 92,
+            stride: 1,
+            offset: 0,
+        };
+        let acc = sweep(&famb, &opts, &|idx, case, acc| {
+            acc.count("cases");
+            for (pi, pl) in plans_b.iter().enumerate() {
+                e2::check_c08_async(case, pl, (92, idx, pi as u32), acc);
+            }
+            // and synchronously under the same hint patterns
+            for pl in plans_b.iter() {
+                let cfg = RunCfg { hint_mask: pl.hint_mask, ..RunCfg::default() };
+                e1::check(P::C08, case, &cfg, (92, idx, 99), acc);
+            }
+        });
+        total_states += acc.get("cases");
+        total_transitions += acc.evaluations;
+        eprintln!("[C08] F8b under completion orders x hint patterns: {} cases, {} schedules, {:.1}s", acc.get("cases"), acc.get("schedules"), ctx.t0.elapsed().as_secs_f64());
+        rep.push("F8b x hint patterns x completion orders (controlled executor)", acc, true, famb.len());
     }
     if prop == P::C07 {
         // union requirements under every completion order of the candidate / dependency requests
         let q = ctx.tier == Tier::Quick;
         let fam = Decorated::new("F3 skeletons with unions", skeletons(), if q { 1 } else { 2 }, true, &|d| matches!(d, Deco::AddUnion(..) | Deco::Favor(_)));
-        let aplan = AsyncPlan { mask: K_CANDS | K_DEPS | if q { 0 } else { K_SORT | K_FILTER }, pairs: false, hint: None, complete_cap: if q { 2000 } else { 20000 }, dev_bound: 2, dev_cap: if q { 2000 } else { 20000 } };
+        let aplan = AsyncPlan { hint_mask: None, mask: K_CANDS | K_DEPS | if q { 0 } else { K_SORT | K_FILTER }, pairs: false, hint: None, complete_cap: if q { 2000 } else { 20000 }, dev_bound: 2, dev_cap: if q { 2000 } else { 20000 } };
         let opts = SweepOpts {
             threads: threads(),
             wall_limit_s: 120,
@@ -751,14 +783,14 @@ pub fn run_e2(ctx: &Ctx) -> i32 {
     };
     let plans: Vec<AsyncPlan> = if q {
         vec![
-            AsyncPlan { mask: K_CANDS | K_DEPS, pairs: false, hint: None, complete_cap: 3000, dev_bound: 2, dev_cap: 3000 },
-            AsyncPlan { mask: K_CANDS | K_DEPS, pairs: false, hint: Some(Hint::All), complete_cap: 1000, dev_bound: 1, dev_cap: 1000 },
+            AsyncPlan { hint_mask: None, mask: K_CANDS | K_DEPS, pairs: false, hint: None, complete_cap: 3000, dev_bound: 2, dev_cap: 3000 },
+            AsyncPlan { hint_mask: None, mask: K_CANDS | K_DEPS, pairs: false, hint: Some(Hint::All), complete_cap: 1000, dev_bound: 1, dev_cap: 1000 },
         ]
     } else {
         vec![
-            AsyncPlan { mask: K_CANDS | K_DEPS, pairs: false, hint: None, complete_cap: 20000, dev_bound: 3, dev_cap: 50000 },
-            AsyncPlan { mask: K_CANDS | K_DEPS | K_FILTER | K_SORT, pairs: false, hint: Some(Hint::All), complete_cap: 20000, dev_bound: 2, dev_cap: 50000 },
-            AsyncPlan { mask: K_CANDS | K_DEPS, pairs: true, hint: None, complete_cap: 20000, dev_bound: 2, dev_cap: 50000 },
+            AsyncPlan { hint_mask: None, mask: K_CANDS | K_DEPS, pairs: false, hint: None, complete_cap: 20000, dev_bound: 3, dev_cap: 50000 },
+            AsyncPlan { hint_mask: None, mask: K_CANDS | K_DEPS | K_FILTER | K_SORT, pairs: false, hint: Some(Hint::All), complete_cap: 20000, dev_bound: 2, dev_cap: 50000 },
+            AsyncPlan { hint_mask: None, mask: K_CANDS | K_DEPS, pairs: true, hint: None, complete_cap: 20000, dev_bound: 2, dev_cap: 50000 },
         ]
     };
     let fams = std::sync::Arc::new(fams);
